@@ -16,6 +16,7 @@ import os
 import multiprocessing as mp
 
 from pyvc.report import Check
+from bounded import clinative
 from pyvc import minify, minnative, lexreg, source, reglang as R
 from pyvc.values import SymErr
 from specs import lexspec as LS, adjacency as ADJ
@@ -343,6 +344,7 @@ def run(tier, seed, prop='C01'):
                         v['confirmed'] = True
                 if not chk.violations:
                     chk.violation('BOUNDED:minify/header comments are not kept at the top of the output', {'witness': hn['bad'][:4]}, True)
+    clinative.fold(chk, 'luamin')
     chk.trust('pyvc symbolic executor (real loop body -> transition relation); exhaustive exploration of the finite control x ghost space')
     chk.trust('REG decision procedure over LexSpec (specs/lexspec.py) for the FUSE relation; real patterns parsed with re._parser')
     chk.assume('the loop body depends on the token only through its class, `token.code in b\'])}\'` and the chunks it yields (checked: '
